@@ -12,6 +12,7 @@ def main():
     sc = json.loads(sys.argv[1])
     base = sys.argv[2]
     repo = os.environ.get("VERIF_REPO", "/repo")
+    sys.path.insert(0, HERE)
     sys.path.insert(0, os.path.join(HERE, "fake_pkgs"))
     sys.path.insert(0, repo)
     tmpd = os.path.join(base, "tmp")
@@ -42,7 +43,9 @@ def main():
     import python_on_whales
     kind = sc["container"]
     main_scenario = {"container": "fail_after" if kind.startswith("fail_at_") else kind, "chunks": 3,
-                     "fail_at": int(kind[-1]) if kind.startswith("fail_at_") else 0}
+                     "fail_at": int(kind[-1]) if kind.startswith("fail_at_") else 0, "backend": sc["backend"]}
+    os.environ["VP_SANDBOX_BASE"] = os.path.join(base, "sandbox")
+    os.makedirs(os.environ["VP_SANDBOX_BASE"])
     python_on_whales.SCENARIO = main_scenario
     returned_path = None
     prior_path = None
@@ -88,8 +91,18 @@ def main():
             expect_dir = out if sc["outdir"] == "given" else tmpd
             rec["returned_in_outdir"] = os.path.realpath(str(returned_path.parent)) == os.path.realpath(expect_dir)
             txt = returned_path.read_text()
-            rec["result_is_containers"] = txt.startswith("result of image=") and len(python_on_whales.CALLS) == 1 and \
-                txt == "result of image=%s inputs=%s\n" % (python_on_whales.CALLS[0]["image"], ",".join(python_on_whales.CALLS[0]["filelist"] or []))
+            if kind == "real_runner":
+                # written by the stand-in job inside the sandbox: "run=<id>", "inputs:", one line per input it was given
+                lines = txt.split("\n")
+                inputs = [ln.strip() for ln in lines[lines.index("inputs:") + 1:] if ln.strip() and not ln.startswith("converted=")] if "inputs:" in lines else None
+                c0 = python_on_whales.CALLS[0] if len(python_on_whales.CALLS) == 1 else None
+                rec["result_is_containers"] = bool(
+                    c0 and inputs is not None and inputs == ["/data/" + nm for nm in names[:n]]
+                    and all(i.startswith("/data/") and i[6:] in (c0["data_dir_files"] or []) for i in inputs))
+                rec["e2e_inputs"] = inputs
+            else:
+                rec["result_is_containers"] = txt.startswith("result of image=") and len(python_on_whales.CALLS) == 1 and \
+                    txt == "result of image=%s inputs=%s\n" % (python_on_whales.CALLS[0]["image"], ",".join(python_on_whales.CALLS[0]["filelist"] or []))
     except BaseException as e:  # noqa
         rec["raised"] = True
         rec["exc"] = type(e).__name__
